@@ -69,6 +69,16 @@ def check_match(m: Any, doc: Any, d: int, tbl: DocTable) -> str:
             return "parent-is-not-one-step-shorter"
         if m.parent.obj is not walk(doc, node["loc"][:-1]):
             return "parent-value-is-not-the-parent-node"
+        # the parent is a match too: its parent is one step shorter again, up to the root match, which has none
+        a, k = m.parent, len(m.parts) - 1
+        while k > 0:
+            if a.parent is None or tuple(a.parent.parts) != tuple(m.parts[:k - 1]) or not m.path.startswith(a.parent.path):
+                return "ancestor-is-not-one-step-shorter"
+            if a.parent.obj is not walk(doc, node["loc"][:k - 1]):
+                return "ancestor-value-is-not-the-ancestor-node"
+            a, k = a.parent, k - 1
+        if a.parent is not None:
+            return "root-match-has-a-parent"
     elif m.parent is not None:
         return "root-match-has-a-parent"
     return ""
@@ -80,7 +90,7 @@ def replay(rec: Dict[str, Any]) -> List[Tuple[str, Dict[str, Any], str]]:
 
     tbl: DocTable = _table
     out: List[Tuple[str, Dict[str, Any], str]] = []
-    for si in (0, 2, 3):
+    for si in (0, 2, 3, 5):
         text = untext(rec["texts"][si])
         try:
             path = jsonpath.compile(text)
